@@ -82,8 +82,9 @@ def structured_uris():
             out.append(f[:i])                               # truncations
         for i in range(len(f)):
             out.append(f[:i] + f[i + 1:])                   # deletions
-            for a in ALPHA:
+            for a in ALPHA + [f[i] + 'x', 'x' + f[i], f[i][:-1], f[i].upper(), f[i] + ' ']:   # incl. near-misses of the segment itself
                 out.append(f[:i] + [a] + f[i + 1:])         # substitutions
+            for a in ALPHA:
                 out.append(f[:i] + [a] + f[i:])             # insertions
     seen, res = set(), []
     for s in out:
